@@ -3,7 +3,7 @@
    handle of the pool is a view of it: a handle of a table object (any depth limit), or a
    member (List.Struct) of a table list. *)
 From CV Require Import Core.Builder Core.ReaderFacts Core.ArithFacts Core.BuilderFacts Core.AllocProofs
-  Core.WritePtrProofs Core.HeapProofs Core.CopyProofs Core.BuildOps Core.BuildValid Core.BuildInv Core.HeapInv.
+  Core.WritePtrProofs Core.HeapProofs Core.CopyProofs Core.BuildOps Core.BuildValid Core.BuildInv Core.HeapInv Core.ReadBridge.
 From Coq Require Import ZifyBool ZifyNat.
 Open Scope Z_scope.
 
@@ -137,7 +137,8 @@ Proof. reflexivity. Qed.
 (* ------------------------------------------------------------------ writePtr without copy *)
 Lemma write_ptr_hinv f w objs pads q src w' :
   hinv (w_dst w) objs pads -> In q ((0, 0) :: flat_map slots objs) ->
-  (p_valid src = false \/ In (core src) objs /\ p_member src = false) ->
+  (p_valid src = false \/ In (core src) objs /\ p_member src = false \/
+   p_kind src = KStruct /\ os_isZero (p_size src) = true) ->
   write_ptr (S f) true w (fst q) (snd q) InDst src false = Ok w' ->
   nsegs (w_dst w') < 4294967296 ->
   exists pads', hinv (w_dst w') objs (pads ++ pads').
@@ -147,7 +148,11 @@ Proof.
   2:{ unfold lift0 in HW. destruct (writeRawPointer (w_dst w) (fst q) (snd q) 0) as [m'| |] eqn:EW; cbn [bind] in HW; try discriminate.
       apply Ok_inj in HW. subst w'. cbn [w_dst w_set_dst] in *. exists []. rewrite app_nil_r.
       apply (hinv_write_inline (w_dst w) objs pads m' q 0); auto. }
-  destruct Hsrc as [X|[Hin Hmem]]; [discriminate|].
+  destruct Hsrc as [X|[[Hin Hmem]|[EK0 EZ0]]]; [discriminate| |].
+  2:{ rewrite EK0, EZ0 in HW. rewrite empty_struct_word_eq in HW. cbn [of_opt_panic bind] in HW. unfold lift0 in HW.
+      destruct (writeRawPointer (w_dst w) (fst q) (snd q) empty_struct_word) as [m'| |] eqn:EW; cbn [bind] in HW; try discriminate.
+      apply Ok_inj in HW. subst w'. cbn [w_dst w_set_dst] in *. exists []. rewrite app_nil_r.
+      apply (hinv_write_inline (w_dst w) objs pads m' q empty_struct_word); auto. }
   destruct (core_facts src) as (C1 & C2 & C3 & C4 & C5 & C6 & C7).
   destruct (hi_good _ _ _ H _ Hin) as [_ G]. pose proof G as (Sh & _ & Gi & _). apply (proj1 C7) in Sh. unfold shape_ok in Sh.
   rewrite C1, C5 in Gi. destruct (in_seg_elim _ _ _ _ Gi) as (_ & Gi0 & _).
@@ -282,18 +287,23 @@ Definition member_at (h : Ptr) (i : Z) (p : Ptr) : Prop :=
   p_valid p = true /\ p_seg p = p_seg h /\ p_off p = p_off h + i * totalSize (p_size h) /\
   p_size p = p_size h /\ p_kind p = KStruct /\ p_member p = true.
 
+Definition empty_view (p : Ptr) : Prop := p_kind p = KStruct /\ p_size p = mkOS 0 0 /\ p_member p = false.
 Definition view (objs : list Ptr) (p : Ptr) : Prop :=
-  p_valid p = false \/ (p_member p = false /\ In (core p) objs) \/ (exists h i, In h objs /\ member_at h i p).
+  p_valid p = false \/ (p_member p = false /\ In (core p) objs) \/ (exists h i, In h objs /\ member_at h i p) \/
+  empty_view p.
 
 Definition pool_ok (objs : list Ptr) (st : bstate) : Prop :=
   Forall (fun x => fst x = InDst /\ view objs (snd x)) (st_h st).
 
+(* the table holds cores *)
+Definition cores (objs : list Ptr) : Prop := forall h, In h objs -> core h = h.
+
 Definition sinv (st : bstate) (objs : list Ptr) (pads : list region) : Prop :=
-  hinv (w_dst (st_w st)) objs pads /\ pool_ok objs st.
+  hinv (w_dst (st_w st)) objs pads /\ pool_ok objs st /\ cores objs.
 
 Lemma view_incl objs objs' p : incl objs objs' -> view objs p -> view objs' p.
 Proof.
-  intros I [V|[[M V]|(h & i & Hh & V)]]; [left; exact V|right; left; split; auto|right; right; exists h, i; auto].
+  intros I [V|[[M V]|[(h & i & Hh & V)|V]]]; [left; exact V|right; left; split; auto|right; right; left; exists h, i; auto|right; right; right; exact V].
 Qed.
 
 Lemma pool_ok_incl objs objs' st : incl objs objs' -> pool_ok objs st -> pool_ok objs' st.
@@ -309,11 +319,11 @@ Lemma view_null objs : view objs nullPtr.
 Proof. left. reflexivity. Qed.
 
 Lemma sinv_push_null st objs pads : sinv st objs pads -> sinv (hpush st (st_w st) InDst nullPtr) objs pads.
-Proof. intros [H P]. split; [exact H|]. apply pool_ok_push; auto. apply view_null. Qed.
+Proof. intros (H & P & C). split; [exact H|]. split; [|exact C]. apply pool_ok_push; auto. apply view_null. Qed.
 
 Lemma hget_view st objs pads h : sinv st objs pads -> view objs (snd (hget st h)) /\ (p_valid (snd (hget st h)) = true -> fst (hget st h) = InDst).
 Proof.
-  intros [_ P]. unfold hget.
+  intros (_ & P & _). unfold hget.
   destruct (Nat.lt_ge_cases (Z.to_nat h) (length (st_h st))) as [L|G].
   - pose proof (nth_In (st_h st) (InDst, nullPtr) L) as Hin.
     unfold pool_ok in P. rewrite Forall_forall in P. destruct (P _ Hin) as [P1 P2]. auto.
@@ -323,7 +333,7 @@ Qed.
 (* a valid list handle is a handle of a table object *)
 Lemma list_view objs p : view objs p -> p_valid p = true -> p_kind p = KList -> In (core p) objs /\ p_member p = false.
 Proof.
-  intros [V|[[M V]|(h & i & Hh & (_ & _ & _ & _ & _ & _ & _ & Ek & _))]] Hv Hk; [congruence|auto|congruence].
+  intros [V|[[M V]|[(h & i & Hh & (_ & _ & _ & _ & _ & _ & _ & Ek & _))|(Ek & _)]]] Hv Hk; [congruence|auto|congruence|congruence].
 Qed.
 
 (* a valid struct handle: where its sections lie in the table object that holds it *)
@@ -352,13 +362,14 @@ Qed.
 
 Lemma struct_view_geom m objs pads p :
   hinv m objs pads -> view objs p -> p_valid p = true -> p_kind p = KStruct ->
+  p_size p = mkOS 0 0 \/
   exists h, In h objs /\ p_seg h = p_seg p /\ 0 <= DataSize (p_size p) /\ 0 <= PointerCount (p_size p) /\
     p_off h <= p_off p /\
     p_off p + DataSize (p_size p) + 8 * PointerCount (p_size p) <= obj_start h + r_size (obj_reg h) /\
     (forall q lo hi, In q (slots h) -> p_off p <= lo -> hi <= p_off p + DataSize (p_size p) -> hi <= snd q \/ snd q + 8 <= lo) /\
     (forall j, 0 <= j < PointerCount (p_size p) -> In (p_seg p, p_off p + DataSize (p_size p) + 8 * j) (slots h)).
 Proof.
-  intros H V Hv Ek. destruct V as [V|[[M V]|(h & i & Hh & MA)]]; [congruence| |].
+  intros H V Hv Ek. destruct V as [V|[[M V]|[(h & i & Hh & MA)|(_ & V & _)]]]; [congruence| | |left; exact V]; right.
   - (* a table struct *)
     destruct (core_facts p) as (C1 & C2 & C3 & C4 & C5 & C6 & C7).
     destruct (hi_good _ _ _ H _ V) as [_ G]. destruct G as (Sh & _). apply (proj1 C7) in Sh. unfold shape_ok in Sh. rewrite Ek in Sh.
@@ -524,7 +535,9 @@ Definition sub_op (o : bop) : bool :=
   | BSetPtr _ i _ => 0 <=? i
   | BPLSet _ _ _ => true
   | BSetRoot _ => true
-  | BRead _ (OLStruct _ _) => true
+  | BRead l ORoot => match l with InDst => true | InSrc => false end
+  | BRead _ (OSPtr _ i) => 0 <=? i
+  | BRead _ (OLStruct _ _) | BRead _ (OPLAt _ _) => true
   | BRead _ o => ro_op o
   | BRoundTrip _ _ _ | BDump _ => true
   | _ => false
@@ -537,21 +550,30 @@ Definition src_handle (o : bop) : option Z :=
 Definition plain_src (st : bstate) (o : bop) : Prop :=
   match src_handle o with Some hs => p_valid (snd (hget st hs)) = true -> p_member (snd (hget st hs)) = false | None => True end.
 
+Lemma cores_snoc objs h : cores objs -> cores (objs ++ [core h]).
+Proof. intros C x Hx. apply in_app_or in Hx. destruct Hx as [Hx|[<-|[]]]; [apply C; exact Hx|reflexivity]. Qed.
+
+Lemma pool_push_obj objs st w h : pool_ok objs st -> p_valid h = true -> p_member h = false ->
+  pool_ok (objs ++ [core h]) (hpush st w InDst h).
+Proof.
+  intros P Hv Hm. apply pool_ok_push.
+  - apply (pool_ok_incl objs); auto. intros x Hx. apply in_or_app. left. exact Hx.
+  - right. left. split; [exact Hm|]. apply in_or_app. right. left. reflexivity.
+Qed.
+
 Lemma alloc_ctor st objs pads sid sz m1 s1 a h :
   sinv st objs pads -> valid_sid st sid = true -> 0 <= sz -> alloc (w_dst (st_w st)) sid sz = Ok (m1, s1, a) ->
   nsegs m1 < 4294967296 ->
   h = mkPtr true s1 a (p_len h) (p_size h) maxDepth (p_kind h) false (p_bit h) false -> shape_ok h -> obj_bytes h = sz ->
   sinv (hpush st (w_set_dst (st_w st) m1) InDst h) (objs ++ [core h]) pads.
 Proof.
-  intros [H P] Hv Hz EA Hns Eh Sh Eb. apply valid_sid_range in Hv.
+  intros (H & P & C) Hv Hz EA Hns Eh Sh Eb. apply valid_sid_range in Hv.
   destruct (core_facts h) as (C1 & C2 & C3 & C4 & C5 & C6 & C7).
   split.
   - cbn [hpush st_w w_dst w_set_dst].
     apply (hinv_alloc_obj (w_dst (st_w st)) objs pads sid sz m1 s1 a (core h)); auto; try (rewrite Eh; reflexivity);
       try (apply C7; exact Sh); try (rewrite C6; exact Eb).
-  - apply pool_ok_push.
-    + apply (pool_ok_incl objs); auto. intros x Hx. apply in_or_app. left. exact Hx.
-    + right. left. split; [rewrite Eh; reflexivity|]. apply in_or_app. right. left. reflexivity.
+  - split; [|apply cores_snoc; exact C]. apply pool_push_obj; auto; rewrite Eh; reflexivity.
 Qed.
 
 (* ------------------------------------------------------------------ every step of the sub-language *)
@@ -596,7 +618,7 @@ Qed.
 
 Lemma hget_dst st objs pads h : sinv st objs pads -> fst (hget st h) = InDst.
 Proof.
-  intros [_ P]. unfold hget.
+  intros (_ & P & _). unfold hget.
   destruct (Nat.lt_ge_cases (Z.to_nat h) (length (st_h st))) as [L|G].
   - pose proof (nth_In (st_h st) (InDst, nullPtr) L) as Hin.
     unfold pool_ok in P. rewrite Forall_forall in P. apply (P _ Hin).
@@ -606,13 +628,14 @@ Qed.
 (* a data write inside the data section of a struct handle *)
 Lemma struct_data_write st objs pads p addr bs m1 :
   sinv st objs pads -> view objs p -> p_valid p = true -> p_kind p = KStruct ->
-  p_off p <= addr -> addr + zlen bs <= p_off p + DataSize (p_size p) ->
+  0 < zlen bs -> p_off p <= addr -> addr + zlen bs <= p_off p + DataSize (p_size p) ->
   (0 <= p_seg p -> zlen (mem (w_dst (st_w st)) (p_seg p)) < 4294967296 -> addr + zlen bs <= zlen (mem (w_dst (st_w st)) (p_seg p)) ->
    wrote (w_dst (st_w st)) m1 (p_seg p) addr bs) ->
   sinv (mkBSt (w_set_dst (st_w st) m1) (st_h st)) objs pads.
 Proof.
-  intros [H P] Vw Hv Ek Hlo Hhi HW.
-  destruct (struct_view_geom _ _ _ p H Vw Hv Ek) as (ho & Hin & Eseg & D0 & P0 & Olo & Ohi & Hsep & _).
+  intros [H P] Vw Hv Ek Hpos Hlo Hhi HW.
+  destruct (struct_view_geom _ _ _ p H Vw Hv Ek) as [E0|(ho & Hin & Eseg & D0 & P0 & Olo & Ohi & Hsep & _)].
+  { exfalso. rewrite E0 in Hhi. cbn [DataSize] in Hhi. lia. }
   destruct (obj_bounds _ _ _ _ H Hin) as (B1 & B2 & B3 & B4 & B5). rewrite Eseg in *.
   split; [|exact P]. cbn [st_h st_w w_dst w_set_dst].
   apply (hinv_data_write (w_dst (st_w st)) objs pads m1 ho addr bs); auto; try lia.
@@ -631,14 +654,88 @@ Proof.
   intros S Hq Hpl HW Hns. pose proof S as [H P].
   rewrite (hget_dst st objs pads hs S) in HW.
   destruct (hget_view st objs pads hs S) as [Vw _]. set (q := snd (hget st hs)) in *.
-  assert (Hsrc : p_valid q = false \/ In (core q) objs /\ p_member q = false).
+  assert (Hsrc : p_valid q = false \/ In (core q) objs /\ p_member q = false \/
+                 p_kind q = KStruct /\ os_isZero (p_size q) = true).
   { destruct (p_valid q) eqn:EVq; [right|left; reflexivity].
-    destruct Vw as [V|[[M V]|(h & i & Hh & MA)]]; [congruence|auto|].
-    destruct MA as (_ & _ & _ & _ & _ & _ & _ & _ & Mt). rewrite (Hpl eq_refl) in Mt. discriminate. }
+    destruct Vw as [V|[[M V]|[(h & i & Hh & MA)|(Ek & Esz & _)]]]; [congruence|auto| |].
+    - destruct MA as (_ & _ & _ & _ & _ & _ & _ & _ & Mt). rewrite (Hpl eq_refl) in Mt. discriminate.
+    - right. split; [exact Ek|]. rewrite Esz. reflexivity. }
   destruct f as [|f]; [discriminate HW|].
   destruct (write_ptr_hinv f (st_w st) objs pads (sd, ad) q w1 H Hq Hsrc HW Hns) as [pads' H'].
   exists (pads ++ pads'). split; [exact H'|exact P].
 Qed.
+
+(* ------------------------------------------------------------------ read ops that hand out handles *)
+Lemma view_of_read m objs pads q depth p :
+  hinv m objs pads -> cores objs ->
+  (p = nullPtr \/ p = empty_handle q depth \/ exists h, In h objs /\ p = handle_of h depth) -> view objs p.
+Proof.
+  intros H C [->|[->|(h & Hh & ->)]].
+  - apply view_null.
+  - right. right. right. repeat split.
+  - right. left. split; [reflexivity|]. destruct (hi_good _ _ _ H h Hh) as [V _].
+    assert (E : core (handle_of h depth) = core h) by (unfold core, handle_of; cbn; now rewrite V).
+    rewrite E, (C h Hh). exact Hh.
+Qed.
+
+Lemma root_view c m objs pads rl p rl' :
+  hinv m objs pads -> cores objs -> root c (bm_data m) rl = (Ok p, rl') -> view objs p.
+Proof.
+  intros H C HR. unfold root in HR. unfold lookup_segment in HR.
+  destruct ((0 <=? 0) && (0 <? zlen (bm_data m))); [|discriminate].
+  destruct (negb _); [destruct (cfg_root c); discriminate|].
+  apply (view_of_read m objs pads (0, 0) (depth_limit c)); auto.
+  apply (read_slot (cfg_strict c) m objs pads (0, 0) rl (depth_limit c) p rl'); auto. left. reflexivity.
+Qed.
+
+Lemma sptr_view c m objs pads hp i rl p rl' :
+  hinv m objs pads -> cores objs -> view objs hp -> 0 <= i ->
+  struct_ptr c (bm_data m) rl (as_struct hp) i = (Ok p, rl') -> view objs p.
+Proof.
+  intros H C V Hi HR. unfold struct_ptr in HR.
+  destruct (negb (p_valid (as_struct hp)) || (i >=? PointerCount (p_size (as_struct hp)))) eqn:EE.
+  { apply (f_equal fst) in HR. cbn [fst] in HR. apply Ok_inj in HR. subst p. apply view_null. }
+  assert (Hval : p_valid (as_struct hp) = true) by (destruct (p_valid (as_struct hp)); auto; discriminate).
+  destruct (as_struct_valid hp Hval) as [Eas Ek]. rewrite Eas in *.
+  destruct (struct_view_geom _ _ _ hp H V Hval Ek) as [E0|(ho & Hin & Eseg & D0 & P0 & Olo & Ohi & _ & Hsl)].
+  { exfalso. rewrite E0 in EE. cbn [PointerCount] in EE. rewrite Hval in EE. cbn [negb orb] in EE. lia. }
+  destruct (obj_bounds _ _ _ _ H Hin) as (B1 & B2 & B3 & B4 & B5). rewrite Eseg in *.
+  assert (PA : pointerAddress hp i = p_off hp + DataSize (p_size hp) + 8 * i).
+  { apply pointerAddress_eq; unfold maxSegmentSize; lia. }
+  apply (view_of_read m objs pads (p_seg hp, pointerAddress hp i) (p_depth hp)); auto.
+  apply (read_slot (cfg_strict c) m objs pads (p_seg hp, pointerAddress hp i) rl (p_depth hp) p rl'); auto.
+  right. apply in_flat_map. exists ho. split; [exact Hin|]. rewrite PA. apply Hsl. lia.
+Qed.
+
+Lemma plat_view c m objs pads hp i rl p rl' :
+  hinv m objs pads -> cores objs -> view objs hp ->
+  ptrlist_at c true (bm_data m) rl (as_list hp) i = (Ok p, rl') -> view objs p.
+Proof.
+  intros H C V HR. unfold ptrlist_at in HR.
+  destruct (primitiveElem true (as_list hp) i (mkOS 0 1)) as [addr| |] eqn:PE; try discriminate.
+  assert (Hval : p_valid (as_list hp) = true).
+  { unfold primitiveElem in PE. destruct (p_valid (as_list hp)); auto. cbn in PE. discriminate. }
+  destruct (as_list_valid hp Hval) as [Eas Ek]. rewrite Eas in *.
+  destruct (list_view objs hp V Hval Ek) as [Hin _].
+  destruct (list_elem_geom _ _ _ hp i (mkOS 0 1) addr H Hin Hval Ek PE ltac:(left; reflexivity)) as (_ & _ & E3 & _).
+  apply (view_of_read m objs pads (p_seg hp, addr) (p_depth hp)); auto.
+  apply (read_slot (cfg_strict c) m objs pads (p_seg hp, addr) rl (p_depth hp) p rl'); auto.
+  right. apply in_flat_map. exists (core hp). split; [exact Hin|]. apply E3. reflexivity.
+Qed.
+
+Lemma read_push st objs pads rl1 x : sinv st objs pads -> view objs x ->
+  sinv (mkBSt (w_set_rl (st_w st) InDst rl1) (st_h st ++ [(InDst, x)])) objs pads.
+Proof.
+  intros S V. destruct (w_set_rl_dst (st_w st) InDst rl1) as (U1 & U2 & _).
+  destruct (sinv_same_segs st objs pads _ S U1 U2) as (H2 & P2 & C2). split; [exact H2|]. split; [|exact C2].
+  cbn [st_h]. unfold pool_ok. apply Forall_app. split; [exact P2|]. constructor; [|constructor]. split; [reflexivity|exact V].
+Qed.
+
+Lemma skipn_push (hs : list (loc * Ptr)) (x : Ptr) : skipn (length hs) (map snd hs ++ [x]) = [x].
+Proof. rewrite skipn_app, skipn_all2 by (rewrite map_length; lia). rewrite map_length, Nat.sub_diag. reflexivity. Qed.
+
+Lemma handle_hget st h : nth (Z.to_nat h) (map snd (st_h st)) nullPtr = snd (hget st h).
+Proof. unfold hget. change nullPtr with (snd (InDst, nullPtr)). apply map_nth. Qed.
 
 Theorem bstep_hinv e st objs pads o st' out :
   sinv st objs pads -> sub_op o = true -> plain_src st o -> bstep e st o = (Some st', out) ->
@@ -741,9 +838,7 @@ Proof.
       apply (hinv_alloc_comp (w_dst (st_w st)) objs pads sid (8 + 8 * (n * wc)) m1 s1 a tag m2 (core h)); auto; try reflexivity; try lia.
       * cbn [core h p_len p_size]. destruct (rawStructPointer n sz); [cbn in ETag; congruence|discriminate].
       * unfold obj_bytes. cbn [core h p_kind]. rewrite (list_alloc_comp (core h)); try reflexivity; auto; unfold wc_of; cbn [core h p_size p_len]; fold wc; lia.
-    + apply pool_ok_push.
-      * apply (pool_ok_incl objs); auto. intros x Hx. apply in_or_app. left. exact Hx.
-      * right. left. split; [reflexivity|]. apply in_or_app. right. left. reflexivity.
+    + destruct P as [P C]. split; [|apply cores_snoc; exact C]. apply pool_push_obj; auto.
   - (* NewVoid *)
     destruct (negb (valid_sid st sid)) eqn:EV.
     { intros E _. injection E as <- _. exists objs, pads. now apply sinv_push_null. }
@@ -768,9 +863,7 @@ Proof.
         apply in_seg_intro; rewrite ?zlen_bm, ?seg_len_bm; try lia. apply zlen_nonneg.
       * intros _ X. discriminate X.
       * intros q Hq. unfold slots, tgt_of, h in Hq. cbn in Hq. destruct Hq.
-    + apply pool_ok_push.
-      * apply (pool_ok_incl objs); auto. intros x Hx. apply in_or_app. left. exact Hx.
-      * right. left. split; [reflexivity|]. apply in_or_app. right. left. reflexivity.
+    + destruct P as [P C]. split; [|apply cores_snoc; exact C]. apply pool_push_obj; auto.
   - (* NewBytes *)
     destruct (negb (valid_sid st sid)) eqn:EV.
     { intros E _. injection E as <- _. exists objs, pads. now apply sinv_push_null. }
@@ -828,7 +921,8 @@ Proof.
     destruct (seg_write (w_dst (st_w st)) (p_seg p) addr _) as [m1| |] eqn:EW; cbn [bind] in ES; try discriminate.
     apply Ok_inj in ES. subst w1.
     assert (Ln : zlen (le_encode (Z.to_nat n) v) = n) by (apply zlen_le_encode; lia).
-    destruct (struct_view_geom _ _ _ p H Vw Hval Ek) as (ho & Hin & Eseg & D0 & P0 & Olo & Ohi & _).
+    destruct (struct_view_geom _ _ _ p H Vw Hval Ek) as [E0|(ho & Hin & Eseg & D0 & P0 & Olo & Ohi & _)].
+    { exfalso. rewrite E0 in EE. cbn [DataSize] in EE. unfold u32 in EE. destruct (p_valid p); cbn in EE; [lia|discriminate]. }
     destruct (obj_bounds _ _ _ _ H Hin) as (B1 & B2 & B3 & B4 & B5). rewrite Eseg in *.
     assert (Eu : u32 (off + n) = off + n) by (unfold u32; lia).
     assert (Ead : addr = p_off p + off) by (subst addr; unfold u32; lia).
@@ -845,10 +939,11 @@ Proof.
     { unfold set_in, lift0, struct_set_bit in ES. destruct (negb (p_valid (as_struct p) && _)) eqn:EE; [discriminate|].
       destruct (p_valid (as_struct p)); auto; discriminate. }
     destruct (as_struct_valid p Hval) as [Eas Ek]. rewrite Eas in *.
-    destruct (struct_view_geom _ _ _ p H Vw Hval Ek) as (ho & Hin & Eseg & D0 & P0 & Olo & Ohi & _).
-    destruct (obj_bounds _ _ _ _ H Hin) as (B1 & B2 & B3 & B4 & B5). rewrite Eseg in *.
     unfold set_in, lift0, struct_set_bit in ES.
     destruct (negb (p_valid p && (n <? u32 (DataSize (p_size p) * 8)))) eqn:EE; [discriminate|].
+    destruct (struct_view_geom _ _ _ p H Vw Hval Ek) as [E0|(ho & Hin & Eseg & D0 & P0 & Olo & Ohi & _)].
+    { exfalso. rewrite E0 in EE. cbn [DataSize] in EE. change (u32 (0 * 8)) with 0 in EE. destruct (p_valid p); cbn in EE; [lia|discriminate]. }
+    destruct (obj_bounds _ _ _ _ H Hin) as (B1 & B2 & B3 & B4 & B5). rewrite Eseg in *.
     assert (Hnb : n < DataSize (p_size p) * 8) by (unfold u32 in EE; destruct (p_valid p); cbn in EE; [lia|discriminate]).
     destruct (addOffset (p_off p) (bitOffset_offset n)) as [addr|] eqn:EA; [|discriminate].
     apply addOffset_spec in EA. destruct EA as [EA1 EA2]. unfold bitOffset_offset in *.
@@ -929,7 +1024,8 @@ Proof.
     assert (Hval : p_valid (as_struct p) = true) by (destruct (p_valid (as_struct p)); auto; discriminate).
     destruct (as_struct_valid p Hval) as [Eas Ek]. rewrite Eas in *.
     destruct (hget_view st objs pads h S) as [Vw _]. rewrite EH in Vw. cbn [snd] in Vw.
-    destruct (struct_view_geom _ _ _ p H Vw Hval Ek) as (ho & Hin & Eseg & D0 & P0 & Olo & Ohi & _ & Hsl).
+    destruct (struct_view_geom _ _ _ p H Vw Hval Ek) as [E0|(ho & Hin & Eseg & D0 & P0 & Olo & Ohi & _ & Hsl)].
+    { exfalso. rewrite E0 in EE. cbn [PointerCount] in EE. rewrite Hval in EE. cbn [negb orb] in EE. lia. }
     destruct (obj_bounds _ _ _ _ H Hin) as (B1 & B2 & B3 & B4 & B5). rewrite Eseg in *.
     assert (PA : pointerAddress p i = p_off p + DataSize (p_size p) + 8 * i).
     { apply pointerAddress_eq; unfold maxSegmentSize; lia. }
@@ -976,33 +1072,49 @@ Proof.
     + (* read-only accessors *)
       rewrite (ro_step_handles _ _ _ _ _ _ _ ERO EST). rewrite skipn_all2 by (rewrite map_length; lia). cbn [map]. rewrite app_nil_r.
       apply sinv_same_segs; auto.
-    + (* List.Struct *)
-      destruct o; try discriminate Hop; try discriminate ERO. cbn [op_handle] in l1. cbn [step] in EST.
-      assert (El : l1 = InDst) by (apply (hget_dst st objs pads h S)).
-      injection EST as <- _. unfold push. cbn [rs_handles rs_rl].
-      rewrite skipn_app, skipn_all2 by (rewrite map_length; lia).
-      replace (length (st_h st) - length (map snd (st_h st)))%nat with O by (rewrite map_length; lia).
-      cbn [skipn app map]. unfold handle. cbn [rs_handles].
-      set (p := nth (Z.to_nat h) (map snd (st_h st)) nullPtr).
-      assert (Ep : p = snd (hget st h)).
-      { unfold p, hget. change nullPtr with (snd (InDst, nullPtr)). apply map_nth. }
-      destruct (hget_view st objs pads h S) as [Vw _]. rewrite <- Ep in Vw.
-      pose proof (sinv_same_segs st objs pads (w_set_rl (st_w st) l1 (w_rl (st_w st) l1)) S) as S2.
-      destruct (w_set_rl_dst (st_w st) l1 (w_rl (st_w st) l1)) as (U1 & U2 & _).
-      specialize (S2 U1 U2). destruct S2 as [H2 P2]. rewrite El in *.
-      split; [exact H2|]. cbn [st_h].
-      unfold pool_ok. apply Forall_app. split; [exact P2|]. constructor; [|constructor]. split; [reflexivity|]. cbn [snd].
-      destruct (list_struct true (as_list p) i) as [x| |] eqn:ELS; try apply view_null.
-      unfold list_struct in ELS.
-      destruct (negb (p_valid (as_list p)) || (i <? 0) || (i >=? p_len (as_list p))) eqn:EI; [discriminate|].
-      assert (Hval : p_valid (as_list p) = true) by (destruct (p_valid (as_list p)); auto; discriminate).
-      destruct (as_list_valid p Hval) as [Eas Ek]. rewrite Eas in *.
-      destruct (list_view objs p Vw Hval Ek) as [Hin _].
-      destruct (p_bit p) eqn:EB; [apply Ok_inj in ELS; subst x; apply view_null|].
-      destruct (element (p_off p) i (totalSize (p_size p))) as [a0|] eqn:EE; [|apply Ok_inj in ELS; subst x; apply view_null].
-      apply element_spec in EE. destruct EE as [Ead _]. apply Ok_inj in ELS. subst x.
-      right. right. exists (core p), i. split; [exact Hin|].
-      unfold member_at. cbn [core p_kind p_bit p_len p_valid p_seg p_off p_size p_member]. repeat split; auto; lia.
+    + (* ops that push a handle *)
+      destruct P as [P C].
+      destruct o; try discriminate Hop; try discriminate ERO; cbn [op_handle] in l1; cbn [step] in EST.
+      * (* Root *)
+        destruct l; [|discriminate Hop]. subst l1. cbn [w_segs w_rl cfg_of rs_rl rs_handles] in EST.
+        destruct (root (e_cfgd e) (bm_data (w_dst (st_w st))) (bm_rl (w_dst (st_w st)))) as [r rl2] eqn:ER.
+        injection EST as <- _. unfold push. cbn [rs_handles rs_rl]. rewrite skipn_push. cbn [map].
+        apply read_push; auto. destruct r as [x| |]; try apply view_null.
+        eapply (root_view (e_cfgd e) (w_dst (st_w st)) objs pads); eauto.
+      * (* Struct.Ptr *)
+        assert (El : l1 = InDst) by (apply (hget_dst st objs pads h S)). rewrite El in *. cbn [w_segs w_rl cfg_of] in EST.
+        unfold handle in EST. cbn [rs_handles rs_rl] in EST. rewrite handle_hget in EST.
+        destruct (struct_ptr _ _ _ _ _) as [r rl2] eqn:ER.
+        injection EST as <- _. unfold push. cbn [rs_handles rs_rl]. rewrite skipn_push. cbn [map].
+        apply read_push; auto. destruct r as [x| |]; try apply view_null.
+        destruct (hget_view st objs pads h S) as [Vw _].
+        eapply (sptr_view (e_cfgd e) (w_dst (st_w st)) objs pads (snd (hget st h)) i); eauto. lia.
+      * (* List.Struct *)
+        assert (El : l1 = InDst) by (apply (hget_dst st objs pads h S)). rewrite El in *.
+        injection EST as <- _. unfold push. cbn [rs_handles rs_rl]. rewrite skipn_push. cbn [map].
+        unfold handle. cbn [rs_handles]. rewrite handle_hget. set (p := snd (hget st h)).
+        destruct (hget_view st objs pads h S) as [Vw _]. fold p in Vw.
+        apply read_push; auto.
+        destruct (list_struct true (as_list p) i) as [x| |] eqn:ELS; try apply view_null.
+        unfold list_struct in ELS.
+        destruct (negb (p_valid (as_list p)) || (i <? 0) || (i >=? p_len (as_list p))) eqn:EI; [discriminate|].
+        assert (Hval : p_valid (as_list p) = true) by (destruct (p_valid (as_list p)); auto; discriminate).
+        destruct (as_list_valid p Hval) as [Eas Ek]. rewrite Eas in *.
+        destruct (list_view objs p Vw Hval Ek) as [Hin _].
+        destruct (p_bit p) eqn:EB; [apply Ok_inj in ELS; subst x; apply view_null|].
+        destruct (element (p_off p) i (totalSize (p_size p))) as [a0|] eqn:EE; [|apply Ok_inj in ELS; subst x; apply view_null].
+        apply element_spec in EE. destruct EE as [Ead _]. apply Ok_inj in ELS. subst x.
+        right. right. left. exists (core p), i. split; [exact Hin|].
+        unfold member_at. cbn [core p_kind p_bit p_len p_valid p_seg p_off p_size p_member]. repeat split; auto; lia.
+      * (* PointerList.At *)
+        assert (El : l1 = InDst) by (apply (hget_dst st objs pads h S)). rewrite El in *. cbn [w_segs w_rl cfg_of] in EST.
+        unfold handle in EST. cbn [rs_handles rs_rl] in EST. rewrite handle_hget in EST.
+        change (fx_upgrade all_fixes) with true in EST.
+        destruct (ptrlist_at _ _ _ _ _ _) as [r rl2] eqn:ER.
+        injection EST as <- _. unfold push. cbn [rs_handles rs_rl]. rewrite skipn_push. cbn [map].
+        apply read_push; auto. destruct r as [x| |]; try apply view_null.
+        destruct (hget_view st objs pads h S) as [Vw _].
+        eapply (plat_view (e_cfgd e) (w_dst (st_w st)) objs pads (snd (hget st h)) i); eauto.
   - (* round trip *)
     destruct (root _ _ _) as [r rl]. intros E _. injection E as <- _. exists objs, pads. exact S.
   - (* dump *)
@@ -1141,5 +1253,5 @@ Proof.
   intros Ha Hr Hc Hp st0 Hpl Hb.
   assert (B0 : seg_bound st0) by (destruct ops; cbn [bstates] in Hb; inversion Hb; assumption).
   apply (brun_hinv _ ops st0 [] []); auto.
-  split; [|constructor]. cbn. eapply create_hinv; eauto.
+  split; [cbn; eapply create_hinv; eauto|]. split; [constructor|intros h []].
 Qed.
